@@ -233,3 +233,15 @@ def concatenation_ambiguous_stacks():
         T = [('q0', 'u', None, 'h', None), ('h', 'u', None, 'q1', cat), ('q0', 'v', None, 'm', s1), ('m', 'v', None, 'q1', s2),
              ('q1', 'x', cat, 'f', None), ('q1', 'y', s2, 'r', None), ('r', None, s1, 'g', None), ('q1', 'x', s2, 'dead', None)]
         yield ('concatenation_ambiguous_stack_letters', pd.make(['q0', 'h', 'm', 'q1', 'f', 'r', 'g', 'dead'], 'uvxy', G, T, 'q0', ['f', 'g']))
+
+
+def guess_bits(k):
+    """a FINITE epsilon closure that needs about 2^(k+1) closure iterations: push a bottom marker, guess k bits by epsilon moves,
+    read one a, then unwind by epsilon moves - only the all-ones stack (the last configuration a breadth-first closure finds) reaches
+    the accepting state.  Language {a}.  Used with closure limits ABOVE the default of 1000 (round 13, C02_m)."""
+    Q = ['g%d' % i for i in range(k + 1)] + ['s', 'u', 'f']
+    T = [('s', None, None, 'g0', '$')]
+    for i in range(k):
+        T += [('g%d' % i, None, None, 'g%d' % (i + 1), '0'), ('g%d' % i, None, None, 'g%d' % (i + 1), '1')]
+    T += [('g%d' % k, 'a', None, 'u', None), ('u', None, '1', 'u', None), ('u', None, '$', 'f', None)]
+    return pd.make(Q, 'a', '01$', T, 's', ['f'])
